@@ -281,11 +281,11 @@ def hopeless(s, lb):
     return k == L_TAKE and s.S and s.ls[i][0] == LTOP and s.ls[i][4]
 
 
-def random_schedule(rng, v, nl, nc, nh, nw, max_conns, max_len, prefix=()):
-    s = init(v, nl, nc, nh, nw)
+def random_schedule(rng, v, nl, nc, nh, nw, max_conns, max_len, prefix=(), start=None, luck0=0):
+    s = init(v, nl, nc, nh, nw) if start is None else start.copy()
     sched = []
     env = 0
-    luck = 0
+    luck = luck0
     for lb in prefix:
         t = step(v, s, lb)
         if t is None:
@@ -358,6 +358,106 @@ def bfs_paths(v, nl, nc, nh, nw, max_conns, depth, cap):
 
 
 REPAIRED = (True, True, True)
+
+# ---- start-up (Model/ShutdownBoot.v): mirror for generation only, as above ---------------------------------------------
+B_EXEC, B_ENV = 9, 10
+BOOT_KINDS = (L_STEP, L_TAKE, E_CONN, C_STEP, C_PANIC)
+
+
+class BSt:
+    __slots__ = ("nl", "k", "ph", "q", "inner")
+
+
+def binit(nl, nc, nh, nw):
+    w = BSt()
+    w.nl, w.k, w.ph, w.q = nl, 0, 0, 0
+    w.inner = init(REPAIRED, 0, nc, nh, nw)
+    return w
+
+
+def bstep(w0, lb):
+    w = BSt()
+    w.nl, w.k, w.ph, w.q, w.inner = w0.nl, w0.k, w0.ph, w0.q, w0.inner
+    k, i = lb
+    if k == B_EXEC:
+        if w.k >= w.nl:
+            return None
+        w.inner = w.inner.copy()
+        if w.ph == 0:
+            w.inner.C += 1
+            w.ph = 1
+        elif w.ph == 1:
+            w.ph = 2
+        else:
+            w.inner.ls.append([LTOP, False, False, w.q, False])
+            w.k, w.ph, w.q = w.k + 1, 0, 0
+        return w
+    if k == B_ENV:
+        if w.k >= w.nl or w.ph != 2:
+            return None
+        w.q += 1
+        return w
+    if k in BOOT_KINDS:
+        t = step(REPAIRED, w.inner, lb)
+        if t is None:
+            return None
+        w.inner = t
+        return w
+    return None
+
+
+def random_boot(rng, nl, nc, nh, nw, max_conns, max_len, eager):
+    """a start-up schedule that ends with execute() returning -> (labels, state of the manager then, lucky steps used)"""
+    w = binit(nl, nc, nh, nw)
+    sched, env, luck = [], 0, 0
+    while w.k < w.nl:
+        cand = [((B_EXEC, 0), 6 if eager or len(sched) >= max_len else 2)]
+        if len(sched) < max_len:
+            if w.ph == 2 and env < max_conns:
+                cand.append(((B_ENV, 0), 2))
+            for lb in labels(w.inner, max_conns - env):
+                if lb[0] in BOOT_KINDS and not (lucky(w.inner, lb) and luck >= 1) and step(REPAIRED, w.inner, lb) is not None:
+                    cand.append((lb, 1 if lb[0] == C_PANIC else 3))
+        lb = rng.choices([c[0] for c in cand], [c[1] for c in cand])[0]
+        if lb[0] in BOOT_KINDS and lucky(w.inner, lb):
+            luck += 1
+        if lb[0] in (B_ENV, E_CONN):
+            env += 1
+        w = bstep(w, lb)
+        sched.append(lb)
+    return sched, w.inner, luck, env
+
+
+def xboot(n, bsched, sched):
+    return xl(xl(*[xn(a) for a in n]), xlist([xl(xn(k), xn(i)) for k, i in bsched]), xlist([xl(xn(k), xn(i)) for k, i in sched]))
+
+
+def bootrep(n, bsched, sched, kind):
+    return Case("shutdown.bootreplay", xboot(n, bsched, sched), "shutdown.bootspec",
+                {"kind": kind, "n": n, "len": len(bsched) + len(sched)}, "dev")
+
+
+def boot_case(rng, n, kind):
+    bsched, st, luck, env = random_boot(rng, n[0], n[1], n[2], n[3], rng.choice([0, 1, 2, 3]), rng.randrange(4, 30), rng.random() < 0.3)
+    sched = random_schedule(rng, REPAIRED, n[0], n[1], n[2], n[3], max(0, 3 - env), rng.randrange(6, 50), start=st, luck0=luck)
+    return bootrep(n, bsched, sched, kind)
+
+
+def parse_boot(text):
+    m = {"X": B_EXEC, "Q": B_ENV, "L": L_STEP, "T": L_TAKE, "E": E_CONN, "C": C_STEP, "P": C_PANIC}
+    return [(m[t[0]], int(t[1:] or 0)) for t in text.split()]
+
+
+# start-up schedules with traffic in between (X = execute's next action, Q = a client connects to the bound listener whose
+# task does not exist yet), then a schedule from the state in which execute() returned
+DIRECTED_BOOT = [
+    # Properties/C10.v ex_boot: loop 0 serves one connection and holds a second one while listener 1 is started
+    ((2, 1, 0, 1), "X X X E0 T0 L0 L0 X X Q C0 C0 E0 T0 X", "S0 S0 S0 S0 L0 L0 L0 L1 L1 L1"),
+    # nothing but the start-up program, three listeners, then a shutdown
+    ((3, 1, 0, 1), "X X X X X X X X X", "S0 S0 S0 S0 L0 L0 L0 L0 L1 L1 L1 L1 L2 L2 L2 L2 L2 L2 K K K W0"),
+    # a handler panics before the second listener is counted
+    ((2, 1, 1, 1), "X X X E0 T0 L0 L0 P0 C0 C0 X X X", "H0 S0 S0 S0 S0"),
+]
 
 
 def xsched(v, n, sched):
@@ -462,7 +562,14 @@ def generate(rng, tier):
             st = step(REPAIRED, st, lb)
             assert st is not None, ("directed schedule not enabled", text, lb)
         cases.append(rep(REPAIRED, n, sched, "directed"))
+    for n, btext, text in DIRECTED_BOOT:
+        cases.append(bootrep(n, parse_boot(btext), parse_sched(text), "directed-startup"))
     # ---- malformed --------------------------------------------------------------------------------
+    for x in [xn(3), xl(xl(xn(1), xn(1), xn(0), xn(0)), xl(xl(xn(7), xn(0))), xl())]:
+        cases.append(Case("shutdown.bootreplay", x, None, {"kind": "malformed"}, "dev"))
+    # not enabled: a caller's label inside the start-up schedule; a start-up schedule that stops before execute() returns
+    cases.append(Case("shutdown.bootreplay", xboot((1, 1, 0, 0), [(B_EXEC, 0), (B_ENV, 0)], []), None, {"kind": "startup-not-enabled"}, "dev"))
+    cases.append(Case("shutdown.bootreplay", xboot((2, 1, 0, 0), [(B_EXEC, 0)] * 4, [(S_STEP, 0)]), None, {"kind": "startup-unfinished"}, "dev"))
     for x in [xn(3), xl(xn(1)), xl(xl(xn(1), xn(1)), xl(xn(1)), xl()),
               xl(xl(xbool(1), xbool(1), xbool(1)), xl(xn(99), xn(1), xn(0), xn(0)), xl())]:
         cases.append(Case("shutdown.replay", x, None, {"kind": "malformed"}, "dev"))
@@ -492,6 +599,9 @@ def generate(rng, tier):
         n = rng.choice(shapes)
         sched = random_schedule(rng, REPAIRED, n[0], n[1], n[2], n[3], rng.choice([0, 1, 2, 3]), rng.randrange(6, 70))
         cases.append(rep(REPAIRED, n, sched, "random-walk"))
+    # ---- start-up interleaved with traffic, then a schedule from the state in which execute() returned ---------------
+    for j in range(40 if quick else 600):
+        cases.append(boot_case(rng, rng.choice([(1, 1, 0, 1), (2, 1, 0, 1), (2, 1, 1, 1), (3, 1, 0, 1), (2, 2, 0, 0), (3, 0, 0, 1)]), "startup-walk"))
     return cases
 
 
@@ -500,9 +610,9 @@ def _obs(i):
         x = kv.xparse(i)
     except Exception:
         return None
-    if x[0] != "L" or len(x[1]) != 2 or x[1][0][0] != "L":
+    if x[0] != "L" or len(x[1]) not in (2, 3) or x[1][-2][0] != "L":
         return None
-    return x[1][0][1], x[1][1]
+    return x[1][-2][1], x[1][-1]
 
 
 def clauses(i):
@@ -540,7 +650,7 @@ def clauses(i):
 
 
 def spec_ok(c, i, s):
-    if c.comp != "shutdown.replay":
+    if c.comp not in ("shutdown.replay", "shutdown.bootreplay"):
         return i == s
     r = clauses(i)
     if r is None:
@@ -628,12 +738,16 @@ def directed(rng, mismatches):
         cases.append(rep(REPAIRED, n, random_schedule(rng, REPAIRED, n[0], n[1], n[2], n[3], rng.choice([1, 2, 3]), rng.randrange(10, 60)), "directed-walk"))
     for _ in range(300):
         cases.append(meth(random_ops(rng, rng.randrange(1, 30)), "directed-methods"))
+    for n, btext, text in DIRECTED_BOOT:
+        cases.append(bootrep(n, parse_boot(btext), parse_sched(text), "directed-startup"))
+    for _ in range(40):
+        cases.append(boot_case(rng, rng.choice([(1, 1, 0, 1), (2, 1, 0, 1), (3, 1, 0, 1)]), "directed-startup-walk"))
     return cases
 
 
 def describe(c):
     d = {"component": c.comp, "kind": c.meta.get("kind"), "profile": c.profile}
-    if c.comp == "shutdown.replay" and "n" in c.meta:
+    if c.comp in ("shutdown.replay", "shutdown.bootreplay") and "n" in c.meta:
         d["listeners/callers/hooks/waiters"] = c.meta["n"]
         d["schedule_length"] = c.meta["len"]
     d["input"] = kv.pretty(c.x, 400)
@@ -641,10 +755,12 @@ def describe(c):
 
 
 def extra_coverage(cases, impl, model, spec):
-    lens = [c.meta["len"] for c in cases if c.comp == "shutdown.replay" and "len" in c.meta]
-    stalled = sum(1 for c in cases if c.comp == "shutdown.replay" and "(N 78)" in impl.get(c.id, ""))
+    lens = [c.meta["len"] for c in cases if c.comp in ("shutdown.replay", "shutdown.bootreplay") and "len" in c.meta]
+    stalled = sum(1 for c in cases if c.comp in ("shutdown.replay", "shutdown.bootreplay") and "(N 78)" in impl.get(c.id, ""))
+    boots = sum(1 for c in cases if c.comp == "shutdown.bootreplay" and "len" in c.meta)
     return {"schedule_mode": "active schedule control through verif-hooks rendez-vous points (no fall-back to passive trace inclusion was needed)",
-            "schedules_replayed": len(lens), "schedule_steps_replayed": sum(lens), "schedules_stalled": stalled}
+            "schedules_replayed": len(lens), "of_which_with_a_start_up_schedule": boots, "schedule_steps_replayed": sum(lens),
+            "schedules_stalled": stalled}
 
 
 RULE = ("(1) method level: random sequences (1-60 operations) of add_connection, remove_connection, shutdown, wait_for_pre_shutdown "
